@@ -9,7 +9,11 @@
      a failed Begin: return before the deferred function is registered);
    - seeded change C14-5 (no Rollback when the body's error matches driver.ErrBadConn);
    - seeded change C14-9 (a TransactCtx nested in another one on the same SqlConn joins the enclosing
-     transaction instead of being one). *)
+     transaction instead of being one);
+   - seeded change C14-11 (BEGIN, COMMIT and ROLLBACK each go through the SqlConn's breaker: a breaker
+     that opened while the body ran refuses the end call, which is then never sent);
+   - seeded change C14-10 (a body that returned nil is rolled back when its most recent statement
+     failed). *)
 From Coq Require Import List ZArith Bool.
 From GZ Require Import C14.Model C14.Check.
 Import ListNotations.
@@ -165,6 +169,114 @@ Proof.
   exists [sc1 [mkStep ANop FStop] (RErr vgen); sc1 [stx] RNil], [0; 0; 1; 1; 1; 0]%nat, [].
   eexists. eexists. vm_compute. repeat split; auto.
 Qed.
+
+(* ---- C14-11: TransactCtx no longer runs the whole transaction as ONE breaker request; BEGIN, COMMIT
+   and ROLLBACK each go through the breaker (guardedTx.Commit = brk.DoWithAcceptable(tx.Commit)).
+   A breaker that opened between BEGIN and the end refuses the end call: tx.Commit / tx.Rollback is
+   not called at all, ErrServiceUnavailable is taken for the error of the end call. --------------- *)
+Definition is_trip (a : action) : bool := match a with ATrip => true | _ => false end.
+(* the breaker is open when the body ends: an [ATrip] is among the [n] steps performed so far (the
+   variant restricted to trips made from the transaction's own body; nothing closes the breaker
+   again meanwhile) *)
+Definition tripped_within (sc : script) (n : Z) : bool :=
+  existsb (fun s => is_trip (sact s)) (firstn (Z.to_nat n) (ssteps sc)).
+Definition unavail : errval := mkVal VUnavail MBare.
+
+Definition finish_refused (g : bool) (sc : script) (done : bool) (o : bout) (orc : list reply) : qout :=
+  let c := if is_commit (end_call_of g o) then DrvCommit unavail else DrvRollback unavail in
+  (TDone (mkRes 1 (Some o) (ret_of o (XErr c)) done), [], orc, false).
+
+Definition tstep_end_through_breaker (g : bool) (t : nat) (sc : script) (st : tstate) (orc : list reply) : qout :=
+  match st with
+  | TBody k _ _ _ =>
+    tstep_fin (fun t' sc' done o orc' =>
+                 if tripped_within sc' (k + 1) then finish_refused g sc' done o orc'
+                 else finish g t' sc' done o orc') t sc st orc
+  | _ => tstep g t sc st orc
+  end.
+
+(* "begins one transaction and ends it exactly once", "commits if and only if the body returned
+   nil": the body ran and returned nil, the call is over (it returned "circuit breaker is open"),
+   one successful Begin, no Commit, no Rollback: the connection never goes back to the pool *)
+Theorem end_refused_by_open_breaker_refuted :
+  exists scs sched orc th r,
+    let W := exec_gen (tstep_end_through_breaker true) scs sched orc in
+    nth_error (wthreads W) 0 = Some th /\ tst th = TDone r /\ rruns r = 1 /\ rbody r = Some BNil /\
+    rret r = RetErr (ECommit (DrvCommit unavail)) /\
+    count begun_ok (proj 0 (wlog W)) = 1%nat /\ count ent_end (proj 0 (wlog W)) = 0%nat /\
+    count (fun e => on_conn 1 e && begun_ok e) (wlog W) <>
+    (count (fun e => on_conn 1 e && ent_end e) (wlog W) +
+     length (filter (fun th => holds_conn th && Z.eqb (sconn (tsc th)) 1%Z) (wthreads W)))%nat.
+Proof.
+  exists [sc1 [stx; mkStep ATrip FStop] RNil], [0; 0; 0; 0]%nat, [].
+  eexists. eexists. vm_compute. repeat split; auto. discriminate.
+Qed.
+
+(* ... and a body that failed is never rolled back *)
+Theorem rollback_refused_by_open_breaker_refuted :
+  exists scs sched orc th r,
+    let W := exec_gen (tstep_end_through_breaker true) scs sched orc in
+    nth_error (wthreads W) 0 = Some th /\ tst th = TDone r /\ rbody r = Some (BErr (BUser vgen)) /\
+    count begun_ok (proj 0 (wlog W)) = 1%nat /\ count ent_end (proj 0 (wlog W)) = 0%nat.
+Proof.
+  exists [sc1 [mkStep ATrip FStop; stx] (RErr vgen)], [0; 0; 0; 0]%nat, [].
+  eexists. eexists. vm_compute. repeat split; auto.
+Qed.
+
+(* without a trip the variant is the code as it is (why go-zero's own tests pass) *)
+Example end_through_breaker_quiet_without_trip :
+  exec_gen (tstep_end_through_breaker true) [sc1 [stx; mkStep ANop FStop] RNil] [0; 0; 0; 0]%nat [ok; ok; fl] =
+  exec true [sc1 [stx; mkStep ANop FStop] RNil] [0; 0; 0; 0]%nat [ok; ok; fl].
+Proof. vm_compute. reflexivity. Qed.
+
+(* ---- C14-10: the session remembers how its most recent statement ended; a body that returned nil
+   although that statement failed (with anything but sql.ErrNoRows) is treated as if it had returned
+   the statement's error: Rollback and "transaction aborted by failed statement". The variant takes
+   the last step of such a body and the end of the body in one quantum. -------------------------- *)
+Definition is_norows (v : errval) : bool := match vkind v with VNoRows => true | _ => false end.
+Definition is_stmt_act (a : action) : bool := match a with AStmt _ _ => true | _ => false end.
+
+Definition tstep_last_failure_aborts (g : bool) (t : nat) (sc : script) (st : tstate) (orc : list reply) : qout :=
+  match st, sfin sc with
+  | TBody k [s] canc done, RNil =>
+    let '(r, l, orc1, canc1, done1, leak1) := do_action t sc k (sact s) canc done orc in
+    match r, sonfail s with
+    | SErr (BStmt j v), FIgnore =>
+      if is_stmt_act (sact s) && negb (is_norows v) then
+        let '(x, l2, orc2) := try_end t (sconn sc) CRollback done1 orc1 in
+        (TDone (mkRes 1 (Some BNil) (ret_of (BErr (BStmt j v)) x) done1), l ++ l2, orc2, leak1 || is_xpanic x)
+      else tstep g t sc st orc
+    | _, _ => tstep g t sc st orc
+    end
+  | _, _ => tstep g t sc st orc
+  end.
+
+(* "commits if and only if the body returned nil": the body returned nil - it tolerates the failure of
+   its last statement -, nothing in Begin / Commit / Rollback failed, and the transaction is rolled
+   back; the caller gets an error *)
+Theorem tolerated_failure_rolls_back_refuted :
+  exists scs sched orc th r e,
+    let W := exec_gen (tstep_last_failure_aborts true) scs sched orc in
+    nth_error (wthreads W) 0 = Some th /\ tst th = TDone r /\ rbody r = Some BNil /\
+    In e (proj 0 (wlog W)) /\ ecall e = CRollback /\ count (fun e => is_commit (ecall e)) (proj 0 (wlog W)) = 0%nat /\
+    is_nil_ret (rret r) = false.
+Proof.
+  exists [sc1 [stx; mkStep (AStmt MExec true) FIgnore] RNil], [0; 0; 0; 0]%nat, [ok; ok; fl].
+  eexists. eexists. exists (mkEnt 0 1 CRollback OOk vgen). vm_compute. repeat split; auto.
+Qed.
+
+(* the same runs on the code as it is *)
+Example open_breaker_does_not_stop_the_end :
+  wlog (exec true [sc1 [stx; mkStep ATrip FStop] RNil] [0; 0; 0; 0]%nat []) =
+  [en 0 1 CBegin OOk; en 0 1 (CStmt 0 KExec) OOk; en 0 1 CCommit OOk] /\
+  wlog (exec true [sc1 [mkStep ATrip FStop; stx] (RErr vgen)] [0; 0; 0; 0]%nat []) =
+  [en 0 1 CBegin OOk; en 0 1 (CStmt 1 KExec) OOk; en 0 1 CRollback OOk].
+Proof. vm_compute. split; reflexivity. Qed.
+Example tolerated_failure_commits :
+  let W := exec true [sc1 [stx; mkStep (AStmt MExec true) FIgnore] RNil] [0; 0; 0; 0]%nat [ok; ok; fl] in
+  wlog W = [en 0 1 CBegin OOk; en 0 1 (CStmt 0 KExec) OOk; en 0 1 (CStmt 1 KExec) OFail; en 0 1 CCommit OOk] /\
+  map tst (wthreads W) = [TDone (mkRes 1 (Some BNil) (RetErr ENil) false)].
+Proof. vm_compute. split; reflexivity. Qed.
 
 (* the same runs on the code as it is *)
 Example commit_error_kept :
